@@ -37,7 +37,7 @@ func init() {
 		RealCode:     []string{"algorithm/* with verifhook.Tick (build tag verif), all container types"},
 		Stubs:        []string{"objective, gradient and constraint callbacks (pure functions of x)"},
 		Caps:         map[string]int{"n": 6, "iteration_cap_K": 40, "halvings_per_backtracking_loop": 1100},
-		QuickRuns:    40000,
+		QuickRuns:    200000,
 		ThoroughRuns: 4000000,
 		MarkEveryRun: true,
 	})
